@@ -6,21 +6,33 @@
 (* of the state record).  Negative configurations set Bugs to one wrong design decision.      *)
 EXTENDS Image
 
-CONSTANTS KindsMC      \* the image types explored (indices into KindName)
+CONSTANTS KindsMC,     \* the image types explored (indices into KindName)
+          DataMC,      \* the destroy-function user data explored (0 = no destroy function)
+          Depth        \* bound on the number of calls (0 = unbounded)
 
-VARIABLES life, last
+VARIABLES life,     \* the state record, with the output fields of the last call cleared
+          outOK,    \* whether the output of the last call (events, return value, callbacks) was as required
+          last      \* the last call (not part of the VIEW: kept only to make counterexamples readable)
 
-MCInit == life = LifeInit /\ last = Call("init", 0, 0, 0)
+Strip(S) == [S EXCEPT !.ev = <<>>, !.ret = FALSE, !.died = <<>>, !.dev = ""]
 
-MCCalls(S) == {c \in LifeCalls(S) : c.op = "create" => c.v \in KindsMC}
+MCInit == life = LifeInit /\ outOK = TRUE /\ last = Call("init", 0, 0, 0)
 
-MCNext == \E c \in MCCalls(life) : life' \in LifeStep(life, c) /\ last' = c
+MCCalls(S) == {c \in LifeCalls(S) : (c.op = "create" => c.v \in KindsMC) /\ (c.op = "destroyfn" => c.v \in DataMC)}
 
-MCSpec == MCInit /\ [][MCNext]_<<life, last>>
+DepthBound == Depth = 0 \/ TLCGet("level") <= Depth
 
-StateOK  == LifeStateOK(life)
-OutputOK == last.op = "init" \/ LifeOutputOK(life, last)
-\* the same, one conjunct per invariant, so that a counterexample names what failed
+MCNext == \E c \in MCCalls(life) : \E T \in LifeStep(life, c) :
+              /\ life' = Strip(T)
+              /\ outOK' = LifeOutputOK(T, c)
+              /\ last' = c
+
+MCSpec == MCInit /\ [][MCNext]_<<life, outOK, last>>
+
+MCView == <<life, outOK>>
+Perms == Permutations(Img)
+
+\* one conjunct per invariant, so that a counterexample names what failed
 InvNoMemoryError == NoMemoryError(life)
 InvRefsAccounted == RefsAccounted(life)
 InvAliveIffRefs == AliveIffRefs(life) /\ AliveIffStruct(life)
@@ -28,9 +40,5 @@ InvAttachedAlive == AttachedAlive(life)
 InvNoChains == NoChains(life)
 InvOwnedShape == OwnedShape(life)
 InvNothingLeftBehind == NothingLeftBehind(life)
-InvCallbackOnce == last.op = "init" \/ CallbackOnce(life)
-InvCallbackBeforeFrees == last.op = "init" \/ CallbackBeforeFrees(life)
-InvReleasedCompletely == last.op = "init" \/ ReleasedCompletely(life)
-InvUnrefReturn == last.op = "init" \/ UnrefReturn(life, last)
-InvFreesOnlyOf == last.op = "init" \/ FreesOnlyOf(life, last)
+InvOutput == outOK      \* CallbackOnce, CallbackBeforeFrees, ReleasedCompletely, UnrefReturn, FreesOnlyOf
 =============================================================================
